@@ -235,8 +235,7 @@ func writeStatesPalette(paletteData *PaletteContainer[BlocksState]) (palette []s
 		}
 	}
 
-	data = make([]uint64, len(paletteData.data.Raw()))
-	copy(data, paletteData.data.Raw())
+	data = saveIndices(paletteData.data, len(rawPalette), 4)
 	return
 }
 
@@ -253,9 +252,27 @@ func writeBiomesPalette(paletteData *PaletteContainer[BiomesState]) (palette []s
 		palette[i] = save.BiomeState(biomeID)
 	}
 
-	data = make([]uint64, len(paletteData.data.Raw()))
-	copy(data, paletteData.data.Raw())
+	data = saveIndices(paletteData.data, len(rawPalette), 0)
 	return
+}
+
+// saveIndices returns the palette indices of a container packed the way the save format stores
+// them: the width of an index follows from the number of palette entries (but is not less than
+// minBits, and a single entry has no data at all), whatever width the container uses in memory.
+// This is the rule New{States,Biomes}PaletteContainerWithData read with.
+// A container without palette (direct ids) keeps its data.
+func saveIndices(indices *BitStorage, paletteLen, minBits int) []uint64 {
+	switch paletteLen {
+	case 0:
+		return append([]uint64{}, indices.Raw()...)
+	case 1:
+		return []uint64{}
+	}
+	packed := NewBitStorage(max(minBits, bits.Len(uint(paletteLen-1))), indices.Len(), nil)
+	for i := 0; i < indices.Len(); i++ {
+		packed.Set(i, indices.Get(i))
+	}
+	return packed.Raw()
 }
 
 func (c *Chunk) WriteTo(w io.Writer) (int64, error) {
